@@ -148,6 +148,55 @@ pub fn run(ctx: &Ctx) -> Rep {
     });
     let (rv, _) = merge_states(sv);
     rep.merge(rv);
+    // ---- conversion right after converting another value ------------------------------------------
+    // A conversion must not depend on what was converted before. Predecessors: the same value, values that
+    // agree with it in their low bits or differ by a power of two (what a truncated cache key would confuse),
+    // and (thorough) every other value: all 2^32 ordered (previous, current) pairs.
+    {
+        // expected enums per value, taken from a neutral-context conversion that the pass above compared with the model
+        let neutral: Vec<HandRank> = (0..=65535u32).map(|v| HandRank::from(v as u16)).collect();
+        let all_pairs = ctx.thorough();
+        let vchunks: Vec<&[u16]> = values.chunks(256).collect();
+        let sh = par_run(ctx, vchunks.len(), mk, |st, ci| {
+            for &a in vchunks[ci] {
+                let want = neutral[a as usize];
+                let mut probe = |st: &mut St<X>, b: u16| {
+                    let _ = HandRank::from(b);
+                    let got = HandRank::from(a);
+                    st.rep.evaluations += 2;
+                    if got != want {
+                        st.rep.violation(
+                            "converting a value gives the same rank whatever was converted before",
+                            "HandRank::from after HandRank::from",
+                            Input::U16s(vec![b, a]),
+                            format!("{:?}", want),
+                            format!("{:?} right after converting {}", got, b),
+                        );
+                    }
+                };
+                if all_pairs {
+                    for b in 0..=65535u16 {
+                        probe(st, b);
+                    }
+                    st.rep.add("conversion_histories(prev, cur)", 65536);
+                } else {
+                    probe(st, a);
+                    for j in 0..16u32 {
+                        probe(st, a ^ (1 << j));
+                        probe(st, a.wrapping_add(1 << j));
+                        probe(st, a.wrapping_sub(1 << j));
+                        probe(st, a & ((1u32 << j) as u16).wrapping_sub(1)); // low j bits only
+                        probe(st, a | !(((1u32 << j) as u16).wrapping_sub(1))); // high bits all set
+                    }
+                    probe(st, a.swap_bytes());
+                    probe(st, !a);
+                    st.rep.add("conversion_histories(prev, cur)", 83);
+                }
+            }
+        });
+        let (rh, _) = merge_states(sh);
+        rep.merge(rh);
+    }
     // default
     {
         rep.evaluations += 1;
@@ -274,7 +323,7 @@ pub fn run(ctx: &Ctx) -> Rep {
         rep.exhaustive = Some(true);
     }
     rep.rule = format!(
-        "all 65,536 values through HandRank::from and its helpers (distinct = values); all 2,598,960 five-card hands in a seeded slot order, \
+        "all 65,536 values through HandRank::from and its helpers (distinct = values), each also converted right after 83 related predecessors (thorough: after every value); all 2,598,960 five-card hands in a seeded slot order, \
          a seeded 1-in-{} of the six-card and 1-in-{} of the seven-card hands through hand_rank()/hand_rank_validated(), names compared with the \
          rules-derived category/class of the cards",
         rate6, rate7
@@ -294,8 +343,17 @@ pub fn replay(_ctx: &Ctx, inp: &Input, _clause: &str) -> Rep {
     };
     let r = drive::guard(|| match inp {
         Input::U16s(v) if !v.is_empty() => {
+            // values are converted in the recorded order, each checked against the model
             for &x in v {
                 check_value(&mut st, &names, x);
+            }
+            if v.len() == 2 {
+                let _ = HandRank::from(v[0]);
+                let got = HandRank::from(v[1]);
+                let e = &names[if (1..=7462).contains(&v[1]) { v[1] as usize } else { 0 }];
+                if got.value != v[1] || format!("{:?}", got.name) != e.0 || format!("{:?}", got.class) != e.1 {
+                    st.rep.violation("converting a value gives the same rank whatever was converted before", "HandRank::from after HandRank::from", inp.clone(), format!("{} / {}", e.0, e.1), format!("{:?}", got));
+                }
             }
         }
         Input::Idx(v) if (5..=7).contains(&v.len()) && ok(v) => {
